@@ -85,6 +85,16 @@ CHECKS["C13"] = dict(
    text="Exploration: boundary-directed case lists of C01/C02/C04 plus Aztec payloads around every layer boundary; QR version <= minimal version for the mode, DataMatrix size <= smallest size for the ASCII encodation, every smaller explicit Aztec size is refused, PDF417 pads < one row and shape limits.",
    note="trusted: capacity formulas in refdec (QR Table 7 via raw-module formula and block table, DataMatrix geometry, Aztec size formula)",
    ref="C13")
+CHECKS["C15"] = dict(
+   technique="offline history checker: digests recorded by one-shot, long-lived and ordered-pair processes checked against the sequential model 'the digest of a request is a constant'; aliasing probes; retained-result re-hash; cache hook state log",
+   text="Exploration: request pool over all symbologies with one QR and one DataMatrix request per distinct Reed-Solomon degree; fresh one-shot processes, long-lived histories (ascending/descending/random order, repetitions, retained barcodes re-hashed at the end), every ordered pair of QR degrees (and DataMatrix degrees in thorough) in fresh processes; []byte aliasing probes on Aztec.",
+   note="trusted: SHA-256 digest over bounds, pixels and accessors; hook utils/verif_on.go for the cache-state log",
+   ref="C15")
+CHECKS["C16"] = dict(
+   technique="Go race detector over repeated cold-start concurrent workloads in fresh processes + digest comparison against a sequential baseline + state-based goroutine-leak verdict + cache-invariant hook (separate sink-on pass)",
+   text="Exploration of schedules: 24 (quick) / 300 (thorough) fresh -race processes over the grid goroutines {2..64} x GOMAXPROCS {1..16}; the concurrent calls are the first library calls in each process; any race report, digest difference, panic, deadlock or blocked library goroutine is a violation.",
+   note="the race detector sees only executed code; schedules are sampled; monitor adds no synchronisation in race-deciding runs",
+   ref="C16")
 PENDING = {}
 
 def main():
